@@ -149,6 +149,26 @@ pub fn seed32(verif_seed: u64, tag: &str, worker: u64) -> [u8; 32] {
     out
 }
 
+/// Seconds since the epoch at which the current case started (0 = idle); read by the
+/// worker's watchdog thread.
+pub static CASE_STARTED: std::sync::atomic::AtomicU64 = std::sync::atomic::AtomicU64::new(0);
+
+fn now_s() -> u64 {
+    std::time::SystemTime::now().duration_since(std::time::UNIX_EPOCH).map_or(0, |d| d.as_secs())
+}
+
+/// Start a thread that ends the process with exit code 42 when one case runs longer than
+/// `limit_s` (only the two termination properties turn that into a violation).
+pub fn start_watchdog(limit_s: u64) {
+    std::thread::spawn(move || loop {
+        std::thread::sleep(std::time::Duration::from_millis(500));
+        let t = CASE_STARTED.load(std::sync::atomic::Ordering::Relaxed);
+        if t != 0 && now_s().saturating_sub(t) > limit_s {
+            std::process::exit(42);
+        }
+    });
+}
+
 pub struct InFlight {
     f: Option<std::fs::File>,
 }
@@ -226,6 +246,7 @@ pub fn campaign<E: Engine>(
         };
         let case = tree.current();
         inflight.set(e.name(), &case);
+        CASE_STARTED.store(now_s(), std::sync::atomic::Ordering::Relaxed);
         let cr = match std::panic::catch_unwind(std::panic::AssertUnwindSafe(|| e.run(&case))) {
             Ok(cr) => cr,
             Err(p) => {
@@ -311,6 +332,7 @@ pub fn campaign<E: Engine>(
             break;
         }
     }
+    CASE_STARTED.store(0, std::sync::atomic::Ordering::Relaxed);
     inflight.clear();
     rep
 }
